@@ -191,6 +191,7 @@ class TabularScriptEnv(gym.Env):
         self.action_space._trace = trace
         self.script = [tuple(s) for s in script]
         self.rng = np.random.default_rng(seed)
+        self.self_loop_p = 0.0
         self.name = name
         self.episode = -1
         self.ended = True
@@ -222,6 +223,8 @@ class TabularScriptEnv(gym.Env):
         # stochastic successor depending on (s, a)
         base = (self.state * 3 + int(action) * 5 + 1) % self.nS
         nxt = int((base + self.rng.integers(0, 2)) % self.nS)
+        if self.self_loop_p and self.rng.random() < self.self_loop_p:
+            nxt = int(self.state)  # e.g. bumping into a wall
         r = float(np.round(self.rng.normal() + (nxt == 0), 3))
         last = self.t >= L
         terminated = bool(last and kind == "T")
